@@ -74,13 +74,27 @@ def insertByPrio (x : Nat × RR) : List (Nat × RR) → List (Nat × RR)
 
 def sortByPrio (xs : List (Nat × RR)) : List (Nat × RR) := xs.foldl (fun acc x => insertByPrio x acc) []
 
-def undotify (d : List Nat) : List Nat := d.filter (· ≠ 46)
+/-- util.unescapePresentation: undo miekg's presentation escapes `\\DDD` and `\\c`; with `dropDots` unescaped dots are
+    dropped; a backslash that is the last byte is kept (fuel = |s|) -/
+def unescPresF (dropDots : Bool) : Nat → List Nat → List Nat
+  | 0, _ => []
+  | _ + 1, [] => []
+  | f + 1, 92 :: a :: b :: c :: r' =>
+    if 48 ≤ a ∧ a ≤ 57 ∧ 48 ≤ b ∧ b ≤ 57 ∧ 48 ≤ c ∧ c ≤ 57 then
+      (((a - 48) * 100 + (b - 48) * 10 + (c - 48)) % 256) :: unescPresF dropDots f r'
+    else a :: unescPresF dropDots f (b :: c :: r')
+  | f + 1, 92 :: a :: r => a :: unescPresF dropDots f r
+  | f + 1, c :: r => if c = 46 ∧ dropDots then unescPresF dropDots f r else c :: unescPresF dropDots f r
+
+def unescPres (dropDots : Bool) (s : List Nat) : List Nat := unescPresF dropDots s.length s
+
+def undotify (d : List Nat) : List Nat := unescPres true d
 
 /-- the data one record contributes in UnwrapDnsResponse (fixed code) -/
 def recordData (domLen : Nat) : RR → Res (List Nat)
   | .null d => if d.length ≥ 2 then sliceFrom d 2 else pure []
   | .priv d => if d.length ≥ 2 then sliceFrom d 2 else pure []
-  | .txt ss => let j := ss.flatten; if j.length ≥ 2 then sliceFrom j 2 else pure []
+  | .txt ss => let j := unescPres false ss.flatten; if j.length ≥ 2 then sliceFrom j 2 else pure []
   | .mx _ n => if n.length ≥ domLen + 2 then do pure (undotify (← slice n 0 (n.length - domLen - 2))) else pure []
   | .srv _ t => if t.length ≥ domLen + 2 then do pure (undotify (← slice t 0 (t.length - domLen - 2))) else pure []
   | .cname t =>
